@@ -360,7 +360,7 @@ def run_droplet(case, ctx):
         lib_eq = bool(got == ref)
     except Exception as e:  # noqa  (the library's == may raise when the two sides hold droplets of different classes/layouts)
         lib_eq = False
-    ctx.check("C14.equals-offline", "C14.equals-framewise", lib_eq and etc_equal(got, ref), {"library_eq": lib_eq, "online": [[float(t), [str(d) for d in e]] for t, e in got.items()][:3], "offline": [[float(t), [str(d) for d in e]] for t, e in ref.items()][:3]}, tags)
+    ctx.check("C14.equals-offline", lib_eq and etc_equal(got, ref), {"library_eq": lib_eq, "online": [[float(t), [str(d) for d in e]] for t, e in got.items()][:3], "offline": [[float(t), [str(d) for d in e]] for t, e in ref.items()][:3]}, tags)
     ctx.check("C14.times", [float(t) for t in got.times] == [float(t) for t in times], {"got": list(got.times), "want": times}, tags)
     # "frame by frame": every stored field analysed on its own with an equal but FRESH copy of the settings
     import copy
